@@ -158,6 +158,20 @@ void h_exit(void) {
   __CPROVER_assert(g_cleanup_calls == 1, "exit: the exit value is stored, then the thread finishes through the common exit path");
   VERIF_CANARY();
 }
+/* the third way a thread ends: it is cancelled and reaches a cancellation point */
+void h_testcancel(void) {
+  world();
+  ENV.this_thread = &NEW; NEW.env = &ENV; g_fn_calls = 1;      /* the thread is inside its start function */
+  NEW.lock.locked = 0; g_myth_init_state = myth_init_state_initialized;      /* a running thread: the library is initialised */
+  NEW.cancel_enabled = nondet_uchar(); NEW.cancelled = nondet_uchar();
+  _Bool hit = NEW.cancel_enabled && NEW.cancelled;
+  g_fn_ret = MYTH_CANCELED; NEW.result = g_arg;
+  myth_testcancel_body();
+  __CPROVER_assert(g_cleanup_calls == (hit ? 1 : 0), "testcancel: a cancelled thread (and only a cancelled one) finishes through the common exit path, exactly once");
+  __CPROVER_assert(!hit || NEW.result == MYTH_CANCELED, "testcancel: the joiner of a cancelled thread gets MYTH_CANCELED");
+  __CPROVER_assert(NEW.lock.locked == 0, "testcancel: the record's lock is released again");
+  VERIF_CANARY();
+}
 int g_desc_freed, g_with_out; void * g_out;
 void free_desc_contract(myth_running_env_t e, myth_thread_t th)
   __CPROVER_requires(th == &NEW && e == &ENV && g_desc_freed == 0)
